@@ -1,11 +1,11 @@
 PROP = dict(
     id="C02",
-    lean_modules=["TongoProofs.C02"],
-    gen=["LevelMask"],
+    lean_modules=["TongoProofs.C02", "TongoProofs.C02Compose"],
+    gen=["LevelMask", "CellDesc"],
     # the model of newImmutableCell is PROVED equal to the TON definition (impl_eq_spec, table_refines_tree), so its
     # answers are the specification: a mismatch on these ops is a violation with the table as failing input.
     # `spec.levels` is answered on the model side by the Lean SPEC itself (Spec.hashAt/depthAt on the unfolded tree).
-    spec_ops=("cell.hash", "cell.levels", "cell.all", "spec.levels", "lmask"),
+    spec_ops=("cell.hash", "cell.levels", "cell.all", "cell.forms", "spec.levels", "lmask"),
     rule="(1) random DAGs of ordinary cells (1..40 cells, sharing, chains); (2) WFExotic DAGs over all five cell types "
          "built children first: parents' masks = OR of the children's (shifted right under Merkle cells), pruned "
          "branches carry the real level-wise hashes/depths (computed from the definition) of a generated original with "
@@ -16,7 +16,11 @@ PROP = dict(
          "every bag of cells found in the repo's testdata directories (whole files, hex/base64 strings in JSON, BOCs "
          "embedded in binary lite-server answers), parsed by the real parser: all cells through the digest op "
          "cell.all and the direct oracle go.boc, roots and a sample of inner cells (exotic ones over-sampled) with "
-         "explicit answers; (5b) malformed stream: any type byte 0..7, any 3-bit mask, any data length, masks unrelated to "
+         "explicit answers; (5a) every cell of the testdata that the library decodes as a tlb.Transaction / tlb.Message (blocks keep "
+         "them in cells of their own): decoded hash field vs the definition, plain decoder and caching decoder "
+         "(go.msgtx), plus cell.forms; (5c) Merkle updates over two pruned versions (old/new) of a tree with real "
+         "pruned branches on both sides, optionally below ordinary wrapper cells (class_merkle_update); "
+         "(5b) malformed stream: any type byte 0..7, any 3-bit mask, any data length, masks unrelated to "
          "children (model = code exactly, and go.nopanic); (6) level-mask helpers on all masks 0..7 x levels 0..5 and random 32-bit masks. "
          "non-trivial = distinct table with >= 2 cells or an exotic root.",
     trusted_base=[
@@ -57,11 +61,15 @@ PROP = dict(
                "to definitions regenerated from boc/level_mask.go on every run; cache_sound / hash_structural (memoised "
                "hashing with any valid pointer-keyed table = plain recursion; result depends on the tree only); "
                "table_refines_tree (the table evaluation run by the compiled driver = the tree recursion the theorems "
-               "are about). Tie, checked on every run: Go Cell.Hash, all four level hashes/depths (hook "
+               "are about); forms_eq_spec (Hash256 / HashString / Level()); msg_tx_hash_is_spec (hash field of a decoded "
+               "tlb.Message / tlb.Transaction = hash of the definition, composing C16.msg_hash_is_cell_hash / "
+               "tx_hash_is_cell_hash); parsed_cells_hash_total (for EVERY byte string the BOC reader model of C07 accepts, "
+               "every row of the result unfolds, Table.infos returns a value or the depth error - never a panic, no other "
+               "error - and the definition's hashes whenever the cell is WFExotic). Tie, checked on every run: Go Cell.Hash, all four level hashes/depths (hook "
                "VerifHashLevels[Cached]) and Level() vs the compiled model on generated WFExotic DAGs and on every cell "
                "of every testdata BOC; the Lean SPEC itself vs Go on small trees (spec.levels); direct oracles on Go "
                "alone against a Go transcription of the definition (go.spec, go.boc), cached vs fresh (go.cached), "
-               "hash unchanged by reads (go.reads), independent of how the cell was obtained (go.obtained: builder API, "
+               "Level()/Hash256/HashString vs model (cell.forms), decoded message/transaction hash field vs definition (go.msgtx), hash unchanged by reads (go.reads), independent of how the cell was obtained (go.obtained: builder API, "
                "serialise+parse; go.readbits), never a panic on malformed cells (go.nopanic).",
     level_note="assurance = min(theorems about the model, tie): the tie is differential (generated + all testdata), not a "
                "proof about the Go source; SHA-256 is a parameter in the theorems and the validated Lean implementation "
